@@ -62,7 +62,24 @@ class SymDT(P.Model):
         return SymDT(year, mo, d, hh, mi, ss)
 
     def __sub__(self, ip, other):
+        if isinstance(other, SymDelta):
+            return self._shift(ip, -other.s)
         return SymDelta(self.epoch() - other.epoch())
+
+    def __add__(self, ip, other):
+        if isinstance(other, SymDelta):
+            return self._shift(ip, other.s)
+        raise P.Unsupported("datetime + non-timedelta")
+
+    def _shift(self, ip, seconds):
+        """datetime +- timedelta: fresh civil fields tied to this one by their epoch (relational encoding: the fields are
+        uniquely determined, z3 does the inversion)"""
+        SymDT._n = getattr(SymDT, "_n", 0) + 1
+        cons = []
+        new = civil(f"sh{SymDT._n}_", cons, 1900, 2200)
+        cons.append(new.epoch() == self.epoch() + seconds)
+        ip.pc.extend(cons)
+        return new
 
     @P.model
     def strftime(self, ip, fmt):
@@ -120,6 +137,14 @@ def m_strptime(ip, s, fmt):
 
 
 @P.model
+def m_timedelta(ip, days=0, seconds=0, minutes=0, hours=0, weeks=0):
+    for v in (days, seconds, minutes, hours, weeks):
+        if z3.is_expr(v):
+            raise P.Unsupported("symbolic timedelta")
+    return SymDelta(int(((weeks * 7 + days) * 24 + hours) * 3600 + minutes * 60 + seconds))
+
+
+@P.model
 def m_time_strftime(ip, fmt, st):
     return Rendered(fmt, st.f)
 
@@ -154,7 +179,8 @@ class Plane:
         def m_localtime(ip, secs):
             return M  # localtime(epoch(M)) == M: fixed-offset zone shared by both sides
 
-        models = {"time.localtime": m_localtime, "time.strftime": m_time_strftime, "setlocale": m_setlocale, "datetime.strptime": m_strptime}
+        models = {"time.localtime": m_localtime, "time.strftime": m_time_strftime, "setlocale": m_setlocale, "datetime.strptime": m_strptime,
+                  "datetime.timedelta": m_timedelta}
         blm = aioftp.Server.__dict__["build_list_mtime"].__func__
         ip = P.Interp(models)
         ip.light_limit = 80
@@ -317,3 +343,39 @@ def validate_translator(plane):
         if found != real:
             bad.append((w, text, real, found))
     return n, bad
+
+
+def fallback_sweep():
+    """Used ONLY when the interpreter cannot execute the current source (or z3 answers unknown): a concrete sweep of the real
+    functions over boundary dates - labelled as such in the evidence, it is not the deciding technique of this check.
+    -> (evaluations, violations[(witness, text, got, want)])"""
+    DAY = 86400
+    out, n = [], 0
+    nows = []
+    for y in (1999, 2000, 2001, 2023, 2024, 2025, 2096, 2100, 2104):
+        for mo, d in ((1, 1), (1, 10), (2, 28), (2, 29), (3, 1), (6, 30), (7, 1), (12, 31)):
+            try:
+                datetime.date(y, mo, d)
+            except ValueError:
+                continue
+            for hh, mi, ss in ((0, 0, 0), (12, 29, 31), (23, 59, 59)):
+                nows.append(datetime.datetime(y, mo, d, hh, mi, ss, tzinfo=datetime.timezone.utc))
+    deltas = [0, 59, DAY, 30 * DAY, 59 * DAY, 100 * DAY, 150 * DAY, 181 * DAY, HALF - DAY - 1, HALF + DAY + 1, 200 * DAY, 365 * DAY, 366 * DAY, 400 * DAY, 800 * DAY, -3600, -200 * DAY]
+    for now in nows:
+        for dl in deltas:
+            for skew in (0, 3600):
+                m = now - datetime.timedelta(seconds=dl)
+                c = now + datetime.timedelta(seconds=skew)
+                if m.year < 1971 or m.year > 2104:
+                    continue
+                w = {"mtime": [m.year, m.month, m.day, m.hour, m.minute, m.second], "server_now": [now.year, now.month, now.day, now.hour, now.minute, now.second],
+                     "client_now": [c.year, c.month, c.day, c.hour, c.minute, c.second]}
+                text, got = replay_witness(w)
+                n += 1
+                recent = 0 <= dl < HALF
+                if abs(dl - HALF) <= DAY + 3600:
+                    continue
+                want = ("%04d%02d%02d%02d%02d00" % tuple(w["mtime"][:5])) if recent else ("%04d%02d%02d000000" % tuple(w["mtime"][:3]))
+                if got != want:
+                    out.append((w, text, got, want))
+    return n, out
